@@ -51,3 +51,9 @@ Proof. repeat split. Qed.
 
 Example C16_example : mono_m [8; 4; 2; 1]%Q (3#2)%Q 5%Q 1 = (1, 2, [1; 2])%Z.
 Proof. reflexivity. Qed.
+
+(* the set of files does not depend on the unit in which the wavelengths and the window are expressed (F52) *)
+From SedV Require Import WindowUnits.
+Theorem C16_units : forall k wavs wmin wmax chunk, (0 < k)%Q ->
+  mono_m (map (Qmult k) wavs) (k * wmin)%Q (k * wmax)%Q chunk = mono_m wavs wmin wmax chunk.
+Proof. exact mono_units. Qed.
